@@ -7,13 +7,20 @@ run-length simulator (`plainStep`, the loop body of `run_quick_machine`, verifie
 iteration ("cycle") at a time exactly as `run_prover` counts them, and at each cycle for which an
 application was reported it
   * requires the reported `(state, before)` to be the configuration the replay is in,
-  * validates the application with `checkApp` (C03: a run of real machine steps), and
+  * validates the application with an application validator `va` (C03: a run of real machine
+    steps), and
   * jumps to the reported tape `after`.
-Nothing the prover *inferred* is trusted: a rule only ever enters through `checkApp`.  The outcome
-of the replay is therefore an outcome of the real machine (theorems in BB/Props/C02.lean), with the
-TRUE number of base steps (those of the applications included).
+Nothing the prover *inferred* is trusted: a rule only ever enters through the validator.  The
+outcome of the replay is therefore an outcome of the real machine (theorems in BB/Props/C02.lean),
+with the TRUE number of base steps (those of the applications included).
+
+Two validators: `vaCheck` (`checkApp`: plain simulation from `before` to `after`, cost grows with
+the number of times the rule was applied; `replay`) and `vaSym` (`checkApp` first and, when that runs
+over budget, the symbolic validator `Sym.validateApp` of BB/Model/SymRule.lean, whose cost does not
+depend on `times`; `replaySym`).
 -/
 import BB.Model.Validate
+import BB.Model.SymRule
 
 namespace BB
 
@@ -23,6 +30,8 @@ structure AppRec where
   state : Nat
   before : Tape
   after : Tape
+  /-- how many times the rule was applied (used by the symbolic validator only) -/
+  times : Nat
 deriving Repr, DecidableEq, Inhabited
 
 /-- how a replay ends -/
@@ -43,16 +52,22 @@ inductive ReplayEnd where
   | appMismatch (cycle : Nat)
 deriving Repr, DecidableEq, Inhabited
 
-/-- cell-level blank test (no canonicity needed) -/
-def Tape.cellsBlank (t : Tape) : Bool :=
-  t.scan == 0 && allZeroB (Span.unroll t.lspan) && allZeroB (Span.unroll t.rspan)
+/-- blank test on the blocks (no canonicity needed, and no unrolling: block counts of the replayed
+    tapes reach hundreds of millions): every block is blank-coloured or empty -/
+def Span.blankB (s : Span) : Bool := s.all fun b => b.color == 0 || b.count == 0
 
-/-- `replayGo p budget fuel cycle q t steps blanks apps`: replay `fuel` more cycles from cycle
+def Tape.cellsBlank (t : Tape) : Bool :=
+  t.scan == 0 && Span.blankB t.lspan && Span.blankB t.rspan
+
+/-- `replayGo p va why fuel cycle q t steps blanks apps`: replay `fuel` more cycles from cycle
     number `cycle`, in state `q` on tape `t`, `steps` base steps done so far, `blanks` the record
     (state, steps) of the first time the tape was blank after a step in each state (newest first),
-    `apps` the reported applications still to come (in cycle order).  Returns how the replay ends
-    and the final blank record. -/
-def replayGo (p : Prog) (budget : Nat) :
+    `apps` the reported applications still to come (in cycle order).  `va q t a` validates the
+    reported application `a` from the replayed configuration `(q, t)`: `some s` = validated, `s`
+    base steps; `none` = refused, and then `why q t a` is the diagnostic put in `badApp` (it plays
+    no role in any theorem).  Returns how the replay ends and the final blank record. -/
+def replayGo (p : Prog) (va : Nat → Tape → AppRec → Option Nat)
+    (why : Nat → Tape → AppRec → AppRes) :
     Nat → Nat → Nat → Tape → Nat → List (Nat × Nat) → List AppRec → ReplayEnd × List (Nat × Nat)
   | 0, _, q, t, steps, blanks, _ => (.limit q t steps, blanks)
   | fuel + 1, cycle, q, t, steps, blanks, apps =>
@@ -64,21 +79,44 @@ def replayGo (p : Prog) (budget : Nat) :
         if t'.cellsBlank then
           if blanks.any (fun e => e.1 == q') then (.blankRec cycle q' (steps + k), blanks)
           else if q' == 0 then (.blankRec cycle q' (steps + k), (q', steps + k) :: blanks)
-          else replayGo p budget fuel (cycle + 1) q' t' (steps + k) ((q', steps + k) :: blanks) apps
-        else replayGo p budget fuel (cycle + 1) q' t' (steps + k) blanks apps
+          else replayGo p va why fuel (cycle + 1) q' t' (steps + k) ((q', steps + k) :: blanks) apps
+        else replayGo p va why fuel (cycle + 1) q' t' (steps + k) blanks apps
     match apps with
     | [] => plain []
     | a :: rest =>
       if a.cycle < cycle then (.appMismatch cycle, blanks)
       else if a.cycle == cycle then
         if a.state != q || a.before != t then (.appMismatch cycle, blanks)
-        else match checkApp p q t a.after budget with
-          | .ok _ s => replayGo p budget fuel (cycle + 1) q a.after (steps + s) blanks rest
-          | r => (.badApp cycle r, blanks)
+        else match va q t a with
+          | some s => replayGo p va why fuel (cycle + 1) q a.after (steps + s) blanks rest
+          | none => (.badApp cycle (why q t a), blanks)
       else plain (a :: rest)
 
-/-- replay `lim` cycles from the blank tape -/
+/-- the validator of `replay`: plain simulation from `t` to `a.after` by `checkApp` -/
+def vaCheck (p : Prog) (budget : Nat) (q : Nat) (t : Tape) (a : AppRec) : Option Nat :=
+  match checkApp p q t a.after budget with
+  | .ok _ s => some s
+  | _ => none
+
+/-- the diagnostic of a refused application: the answer of `checkApp` -/
+def whyCheck (p : Prog) (budget : Nat) (q : Nat) (t : Tape) (a : AppRec) : AppRes :=
+  checkApp p q t a.after budget
+
+/-- the validator of `replaySym`: `checkApp`, and when that runs over budget the symbolic
+    validator with the reported `times` -/
+def vaSym (p : Prog) (budget : Nat) (q : Nat) (t : Tape) (a : AppRec) : Option Nat :=
+  match checkApp p q t a.after budget with
+  | .ok _ s => some s
+  | .overBudget => Sym.validateApp p q t a.after a.times budget
+  | _ => none
+
+/-- replay `lim` cycles from the blank tape, applications validated by `checkApp` -/
 def replay (p : Prog) (budget lim : Nat) (apps : List AppRec) : ReplayEnd × List (Nat × Nat) :=
-  replayGo p budget lim 0 0 Tape.init 0 [] apps
+  replayGo p (vaCheck p budget) (whyCheck p budget) lim 0 0 Tape.init 0 [] apps
+
+/-- replay `lim` cycles from the blank tape, applications validated by `checkApp` or, when they
+    are too big for the budget, symbolically (a refused application reports `checkApp`'s answer) -/
+def replaySym (p : Prog) (budget lim : Nat) (apps : List AppRec) : ReplayEnd × List (Nat × Nat) :=
+  replayGo p (vaSym p budget) (whyCheck p budget) lim 0 0 Tape.init 0 [] apps
 
 end BB
